@@ -65,8 +65,29 @@ def _build_initializer(init: Spec, shape: tuple[int, ...]) -> Any:
     raise HarnessError(f"unknown initialiser {t}")
 
 
+def _layout(a: Any, seed: int) -> Any:
+    """Same values, another memory layout, chosen by the array seed (no PRNG draw): C order,
+    Fortran order, or the last two axes swapped in memory.  What a user gets from ``table.T`` or
+    ``np.asfortranarray``; the compiled slice must not depend on it (seeded change C17e-m1)."""
+    if not isinstance(a, np.ndarray) or a.ndim < 2:
+        return a
+    m = seed % 3
+    if m == 1:
+        return np.asfortranarray(a)
+    if m == 2:
+        return np.swapaxes(np.ascontiguousarray(np.swapaxes(a, -1, -2)), -1, -2)
+    return a
+
+
 def const_value(init: Spec, shape: tuple[int, ...]) -> Any:
     """The python / numpy value of a constant initialiser spec."""
+    v = init["value"]
+    if isinstance(v, dict) and "array" in v:
+        return _layout(_const_value(init, shape), int(v["array"]))
+    return _const_value(init, shape)
+
+
+def _const_value(init: Spec, shape: tuple[int, ...]) -> Any:
     v = init["value"]
     if isinstance(v, dict):
         if "array" in v:
